@@ -172,9 +172,10 @@ func ReuseWAL(cfg *config.Config, dir string, nextSeq uint64) (*WAL, error) {
 	// Try the most recent one (last in sorted order)
 	latestWAL := files[len(files)-1]
 
-	// Only append to a file that ends on a record boundary: records written
-	// after a torn or damaged record could not be read back
-	if !endsOnRecordBoundary(latestWAL) {
+	// Only append to a file that ends on an entry boundary: records written
+	// after a torn or damaged record, or after the leading fragments of an
+	// unfinished entry, could not be read back correctly
+	if !endsOnEntryBoundary(latestWAL) {
 		if !DisableRecoveryLogs {
 			fmt.Printf("Latest WAL file has a damaged tail, starting a new one\n")
 		}
@@ -232,9 +233,9 @@ func ReuseWAL(cfg *config.Config, dir string, nextSeq uint64) (*WAL, error) {
 	return wal, nil
 }
 
-// endsOnRecordBoundary reports whether the file consists of complete,
-// checksummed records only
-func endsOnRecordBoundary(path string) bool {
+// endsOnEntryBoundary reports whether the file consists of complete,
+// checksummed entries only
+func endsOnEntryBoundary(path string) bool {
 	reader, err := OpenReader(path)
 	if err != nil {
 		return false
@@ -242,7 +243,7 @@ func endsOnRecordBoundary(path string) bool {
 	defer reader.Close()
 
 	for {
-		if _, err := reader.readRecord(); err != nil {
+		if _, err := reader.ReadEntry(); err != nil {
 			return err == io.EOF
 		}
 	}
